@@ -48,13 +48,23 @@ InRegion(rg, r, c) == r >= rg.row /\ r < rg.row + rg.h /\ c >= rg.col /\ c < rg.
 \* the cells of the double width / double size character anchored at (r, c)
 CharCells(p, r, c) == IF Sz(p, r, c) = 1 THEN {<<r, c>>, <<r, c + 1>>}
                       ELSE IF Sz(p, r, c) = 3 THEN {<<r, c>>, <<r, c + 1>>, <<r + 1, c>>, <<r + 1, c + 1>>} ELSE {}
-\* "cutting through a double-width or double-size character"
-Cuts(p, rg) == \E rc \in Cells(p) : LET cs == CharCells(p, rc[1], rc[2]) IN
-                 (\E x \in cs : InRegion(rg, x[1], x[2])) /\ (\E x \in cs : ~InRegion(rg, x[1], x[2]))
+\* "cutting through a double-width or double-size character" (only anchors in or next to the region can be cut)
+Cuts(p, rg) == \E r \in (IF rg.row > 1 THEN rg.row - 1 ELSE 1)..(rg.row + rg.h - 1) :
+                 \E c \in (IF rg.col > 1 THEN rg.col - 1 ELSE 1)..(rg.col + rg.w - 1) :
+                   /\ r <= p.rows /\ c <= p.cols /\ Sz(p, r, c) \in {1, 3}
+                   /\ LET cs == CharCells(p, r, c) IN
+                      (\E x \in cs : InRegion(rg, x[1], x[2])) /\ (\E x \in cs : ~InRegion(rg, x[1], x[2]))
+CutsAll(p, rg) == \E rc \in Cells(p) : LET cs == CharCells(p, rc[1], rc[2]) IN
+                    (\E x \in cs : InRegion(rg, x[1], x[2])) /\ (\E x \in cs : ~InRegion(rg, x[1], x[2]))
 
 \* ---- specification of a draw
 Post(p, rg, fmt, cv) == IF ~Supported(fmt) THEN cv
                         ELSE [rc \in DOMAIN cv |-> IF InRegion(rg, rc[1], rc[2]) THEN Shown(p, rc[1], rc[2]) ELSE cv[rc]]
+
+\* what an observer who compares a cell of a fresh canvas after the draw with the guard pattern and with the full-page rendering
+\* sees: "U" untouched, "G" the full-page rendering's cell, "X" anything else; PostMark is the same in closed form (MarksOK)
+Mark(p, cv, r, c) == IF cv[<<r, c>>] = U THEN "U" ELSE IF cv[<<r, c>>] = Shown(p, r, c) THEN "G" ELSE "X"
+PostMark(p, rg, fmt, r, c) == IF Supported(fmt) /\ InRegion(rg, r, c) THEN "G" ELSE "U"
 
 \* ---- the drawing procedure: cells of the region in reading order
 RegionSeq(rg) == [i \in 1..(rg.w * rg.h) |-> <<rg.row + ((i - 1) \div rg.w), rg.col + ((i - 1) % rg.w)>>]
@@ -102,6 +112,9 @@ Faithful == \A rc \in Cells(PageM) : canvas[rc] = U \/ canvas[rc] = Shown(PageM,
 Whole(p) == [col |-> 1, row |-> 1, w |-> p.cols, h |-> p.rows]
 ASSUME FullPageIsShown == Post(PageM, Whole(PageM), "PAL8", Fresh(PageM)) = [rc \in Cells(PageM) |-> Shown(PageM, rc[1], rc[2])]
                    /\ Paint(PageM, Whole(PageM), "PAL8", Fresh(PageM), Clip) = [rc \in Cells(PageM) |-> Shown(PageM, rc[1], rc[2])]
+ASSUME MarksOK == \A rg \in AllRegions(PageM) : \A fmt \in Formats : \A rc \in Cells(PageM) :
+                    /\ Mark(PageM, Post(PageM, rg, fmt, Fresh(PageM)), rc[1], rc[2]) = PostMark(PageM, rg, fmt, rc[1], rc[2])
+                    /\ Cuts(PageM, rg) = CutsAll(PageM, rg)
 ASSUME RowByRow == LET RowRg(r) == [col |-> 1, row |-> r, w |-> PageM.cols, h |-> 1]
                 F[r \in 0..PageM.rows] == IF r = 0 THEN Fresh(PageM) ELSE Paint(PageM, RowRg(r), "RGBA32_LE", F[r - 1], Clip)
             IN F[PageM.rows] = [rc \in Cells(PageM) |-> Shown(PageM, rc[1], rc[2])]
